@@ -418,16 +418,33 @@ class CoreCheck:
         return trace
 
     # ---- 3b. spec -> implementation: behaviours chosen by TLC are executed on the real apps
-    def replay_behaviours(self, name, consts, num, depth=60, timeout=600, extra_monitors=(), extra_fields=(), known=()):
-        """TLC random walks (simulation mode) of MC_Core with the behaviour log on; every walk that reaches
-        the settle phase is executed step by step on the real apps and the recorded trace is validated."""
+    def replay_behaviours(self, name, consts, num, depth=60, timeout=600, extra_monitors=(), extra_fields=(), known=(),
+                          invariants=None):
+        """Behaviours of MC_Core chosen by TLC are executed step by step on the real apps and the recorded
+        trace is validated.  num > 0: random walks (simulation mode), every walk that reaches the settle phase.
+        num = 0 (with `invariants`): *exhaustive* - TLC model-checks the bounded instance breadth first and
+        exports, for every distinct settled state, the shortest behaviour that reaches it; all of them are
+        replayed (small-scope exhaustiveness carried over to the real code)."""
         consts = dict(consts, Emit="TRUE")
-        cfg = write_cfg(self.sd, f"{name}.cfg", consts, ["EmitInv"], view=False)
-        r = run_tlc_in(self.sd, "MC_Core", cfg, self.wd, workers=1, timeout=timeout,
-                       simulate=f"num={num}", depth=depth, seed=self.seed)
+        if num > 0:
+            cfg = write_cfg(self.sd, f"{name}.cfg", consts, ["EmitInv"], view=False)
+            r = run_tlc_in(self.sd, "MC_Core", cfg, self.wd, workers=1, timeout=timeout,
+                           simulate=f"num={num}", depth=depth, seed=self.seed)
+        else:
+            cfg = write_cfg(self.sd, f"{name}.cfg", consts, list(invariants) + ["EmitInv"], view=True)
+            r = run_tlc_in(self.sd, "MC_Core", cfg, self.wd, workers=8, timeout=timeout)
+            self.states += r["distinct"]
+            self.transitions += r["states"]
+            self.mc_runs.append({"config": name, "constants": {k: str(v) for k, v in consts.items()},
+                                 "invariants": list(invariants), "states_generated": r["states"],
+                                 "distinct": r["distinct"], "violated": r["violated"], "wall_s": round(r["wall"], 1),
+                                 "every_settled_state_replayed_on_the_real_apps": True})
+            if r["violated"]:
+                p = L.save_replay(self.pid, f"{name}-tlc-counterexample.txt", r["out"][-20000:])
+                self.v.violation(p, f"TLC: the designed protocol violates {list(invariants)} in {name}")
         behs = [b for tag, b in parse_prints(r["out"]) if tag == "REPLAY"]
         if not behs:
-            raise L.ToolError(f"{name}: TLC simulation produced no settled behaviour")
+            raise L.ToolError(f"{name}: TLC produced no settled behaviour")
         bfile = os.path.join(self.wd, f"{name}.behaviours.ndjson")
         with open(bfile, "w") as f:
             for b in behs:
